@@ -16,6 +16,11 @@ type unifiedAttr struct {
 // TODO callers should have better nil checks
 var emptyAttrMetadata = &inspectxml.TokenAttributeMetadata{}
 
+// located reports whether the position of the attribute in the source is known.
+func (a unifiedAttr) located() bool {
+	return a.Metadata != nil && a.Metadata != emptyAttrMetadata
+}
+
 func (d *Decoder) getUnifiedAttributes(t xml.StartElement, tokenMetadata *inspectxml.TokenMetadata) []unifiedAttr {
 	attrs := make([]unifiedAttr, len(t.Attr))
 
@@ -77,7 +82,7 @@ func (d *Decoder) newTokenNameError(err error, t xml.Token) error {
 }
 
 func (d *Decoder) newTokenAttrError(err error, t unifiedAttr) error {
-	if d.tokenMetadata == nil || t.Metadata == nil {
+	if d.tokenMetadata == nil || !t.located() {
 		return err
 	}
 
